@@ -652,7 +652,7 @@ Proof.
       * apply wf_bind_in; [assumption|apply wf_nil].
       * apply wf_scope_loop; assumption.
       * apply wf_ints.
-    + intros u s3 E3 W3 _. apply good_bindo; [assumption|]. intros k' Hk'.
+    + intros u s3 E3 W3 _.
       eapply good_from; [apply ext_bind_in, ext_refl|]. apply ev_opt_wf; [apply wf_bind_in; [assumption|constructor]|].
       apply wf_scope_loop; [pose proof (ext_frames_length _ _ E3); lia|ws].
   - (* EDo *) destruct star.
